@@ -27,7 +27,31 @@ HARNESSES = {
         dict(name=M + "c13_compact_malformed5", tier="quick", kernel="metadata::parse_common_time_format",
              bound="5 bytes over {h,m,digit,' ',x}, unwind 7", budget_s=300,
              obligation="Some iff the kind string matches D+h | D+m | D+hD+m"),
-        dict(name=M + "c13_locale_2", tier="quick", kernel="metadata::value_as_locale", stubs=[FMT],
+        dict(name=M + "c13_unit_spelling_1", tier="quick", kernel="metadata::hard_coded_time_units", stubs=[FMT], budget_s=300,
+         bound="unit = 1 symbolic lower-case letter, value 120", obligation="Ok(120*factor) iff the spelling is one of the 15 documented ones (s/sec/secs/second/seconds = 1/60, m/min/minute/minutes = 1, h/hour/hours = 60, d/day/days = 1440)"),
+    dict(name=M + "c13_unit_spelling_2", tier="quick", kernel="metadata::hard_coded_time_units", stubs=[FMT], budget_s=300,
+         bound="unit = 2 symbolic lower-case letters", obligation="always refused"),
+    dict(name=M + "c13_unit_spelling_3", tier="quick", kernel="metadata::hard_coded_time_units", stubs=[FMT], budget_s=300,
+         bound="unit = 3 symbolic lower-case letters", obligation="documented spelling <=> accepted with its factor"),
+    dict(name=M + "c13_unit_spelling_4", tier="quick", kernel="metadata::hard_coded_time_units", stubs=[FMT], budget_s=300,
+         bound="unit = 4 symbolic lower-case letters", obligation="documented spelling <=> accepted with its factor"),
+    dict(name=M + "c13_unit_spelling_5", tier="quick", kernel="metadata::hard_coded_time_units", stubs=[FMT], budget_s=300,
+         bound="unit = 5 symbolic lower-case letters", obligation="documented spelling <=> accepted with its factor"),
+    dict(name=M + "c13_unit_spelling_6", tier="quick", kernel="metadata::hard_coded_time_units", stubs=[FMT], budget_s=300,
+         bound="unit = 6 symbolic lower-case letters", obligation="documented spelling <=> accepted with its factor"),
+    dict(name=M + "c13_unit_spelling_7", tier="quick", kernel="metadata::hard_coded_time_units", stubs=[FMT], budget_s=300,
+         bound="unit = 7 symbolic lower-case letters", obligation="documented spelling <=> accepted with its factor"),
+    dict(name=M + "c13_locale_2byte_char", tier="quick", kernel="metadata::value_as_locale", stubs=[FMT], budget_s=300,
+         bound="one two-byte UTF-8 character (U+0080..U+07FF)", obligation="refused: not a two-letter code"),
+    dict(name=M + "c13_locale_5_2byte_dialect", tier="quick", kernel="metadata::value_as_locale", stubs=[FMT], budget_s=300,
+         bound="`en_C` / `C_en` with C a two-byte character", obligation="refused"),
+    dict(name=M + "c13_servings_number", tier="quick", kernel="metadata::value_as_servings", stubs=[FMT], budget_s=300,
+         bound="YAML number, any u32", obligation="exactly that number"),
+    dict(name=M + "c13_servings_seq3", tier="quick", kernel="metadata::value_as_servings", stubs=[FMT], budget_s=600,
+         bound="YAML list of 3 numbers, any u32 each", obligation="the numbers in order; refused iff any two are equal"),
+    dict(name=M + "c13_servings_seq4", tier="thorough", kernel="metadata::value_as_servings", stubs=[FMT], budget_s=900,
+         bound="YAML list of 4 numbers", obligation="the numbers in order; refused iff any two are equal"),
+    dict(name=M + "c13_locale_2", tier="quick", kernel="metadata::value_as_locale", stubs=[FMT],
              bound="2 printable ASCII bytes", budget_s=300, obligation="Ok iff both alphabetic"),
         dict(name=M + "c13_locale_3", tier="quick", kernel="metadata::value_as_locale", stubs=[FMT],
              bound="3 printable ASCII bytes", budget_s=300, obligation="always Err"),
@@ -66,6 +90,17 @@ HARNESSES["C09"] = [
          obligation="both range ends converted into the selected unit of the target system"),
     dict(name=CV + "c09_convert_to_best_empty_list", tier="quick", kernel="convert::Converter::convert_to_best", stubs=[RS, FMT],
          bound="one unit, empty designated lists", budget_s=300, obligation="Err(BestUnitNotFound), no panic"),
+    dict(name=CV + "c09_fit_fraction_number", tier="quick", kernel="convert::ScaledQuantity::fit_fraction",
+         stubs=[RS, FMT, MARK, "convert::Fractions::config / Converter::fractions_config -> symbolic enabled flag per unit (HashMap lookups; fractions_config is tracing-instrumented)",
+                "quantity::Number::new_approx -> nondeterministic accept/decline marker logging its argument (the approximation itself is C12)",
+                "ScaledQuantity::try_fraction -> false (tracing-instrumented; only reached with no target system)"],
+         bound="3 imperial volume units with symbolic distinct ratios, 2 of them designated with symbolic thresholds; number value, any finite f64; unwind 8", budget_s=600,
+         obligation="Ok(true) => new unit is a designated, fraction-enabled unit and the value is an accepted approximation of convert_f64(value, from, new unit); "
+                    "Ok(false) => quantity untouched; never Err for numeric values"),
+    dict(name=CV + "c09_fit_fraction_range", tier="quick", kernel="convert::ScaledQuantity::fit_fraction",
+         stubs=[RS, FMT, MARK, "Fractions::config / Converter::fractions_config / Number::new_approx / try_fraction as in c09_fit_fraction_number"],
+         bound="same converter; range value with any finite ends", budget_s=600,
+         obligation="as above for the start; the end is convert_f64(end, from, new unit) - approximated when accepted, that plain number otherwise"),
     dict(name=CV + "c09_convert_twin_reach", tier="quick", kernel="convert::Converter::convert_to_best", stubs=[RS, FMT], twin=True,
          bound=CONV4, budget_s=600, obligation="vacuity twin"),
 ]
@@ -75,6 +110,10 @@ SC = "scale::verif_kani::"
 FITS = "ScaledQuantity::fit -> no-op (identity with the empty converter; amount preservation of fit is C09's claim; kani-compiler ICE below convert_impl)"
 LMARK = "scale::linear_scale -> marker recording its arguments (the product itself is decided by Engine M)"
 HARNESSES["C08"] = [
+    dict(name=CV + "c09_fit_fraction_range", tier="quick", kernel="convert::ScaledQuantity::fit_fraction (the fit step after scaling)",
+         stubs=[RS, FMT, MARK, "Fractions::config / Converter::fractions_config / Number::new_approx / try_fraction: see C09"],
+         bound="3 imperial volume units, symbolic ratios/thresholds; range value with any finite ends; unwind 8", budget_s=600,
+         obligation="fitting a (scaled) range into another unit converts both ends into that unit: the amount is kept"),
     dict(name=SC + "c08_recipe_default_scale_plumbing", tier="quick", kernel="scale::ScalableRecipe::default_scale", stubs=[RS, FMT, LMARK],
          bound="recipe shape fixed: 1 ingredient (Linear|Fixed number), 1 cookware (Fixed number), 1 timer without quantity; numbers symbolic finite; unwind 10", budget_s=300, obligation="written values verbatim, reported as default scaling, linear_scale never called"),
 ]
@@ -93,6 +132,33 @@ HARNESSES["C06"] = [
          bound="4 content entries, 3 finished sections", budget_s=2400, obligation="same as c3_s2"),
     dict(name=EC + "c06_intermediate_ref_twin_reach", tier="quick", kernel="analysis::RecipeCollector::resolve_intermediate_ref", stubs=[RS, FMT], twin=True,
          bound="2 content entries, 1 finished section", budget_s=600, obligation="vacuity twin: an accepted reference is reachable"),
+]
+
+
+BP = "parser::block_parser::verif_kani::"
+
+
+def _reuse(prop, short):
+    for e in HARNESSES[prop]:
+        if e["name"].endswith("::" + short):
+            d = dict(e)
+            d["tier"] = "quick"
+            return d
+    raise KeyError(short)
+
+
+HARNESSES["C03"] = [
+    dict(name=BP + "c03_block_text_1_token", tier="quick", kernel="parser::BlockParser::text / Text::append_fragment", budget_s=600,
+         bound="one token of symbolic kind (word, whitespace, newline, comments, escaped) and symbolic length within what the lexer emits for it; 16-byte ASCII input; unwind 8",
+         obligation="no panic / failed (debug) assertion: offset, escape-length and fragment-order assertions hold; slices stay in bounds"),
+    dict(name="verif_kani::c03_extension_flag_algebra", tier="quick", kernel="Extensions (bitflags)", budget_s=300,
+         bound="every u32 bit pattern", obligation="truncation keeps exactly the known bits; INTERMEDIATE_PREPARATIONS implies COMPONENT_MODIFIERS; COMPAT = all - TIMER_REQUIRES_TIME"),
+    dict(name="error::verif_kani::c03_color_generator_index", tier="quick", kernel="error::ColorGenerator::next", budget_s=300,
+         bound="any valid start state, up to 16 calls; unwind 20", obligation="index always in bounds"),
+    _reuse("C13", "c13_compact_h10"), _reuse("C13", "c13_compact_h8_m2"), _reuse("C13", "c13_compact_malformed5"),
+    _reuse("C12", "c12_new_approx_structure"), _reuse("C12", "c12_lookup_contract"),
+    _reuse("C06", "c06_intermediate_ref_c3_s2"),
+    _reuse("C09", "c09_convert_to_best_number"), _reuse("C09", "c09_fit_fraction_range"),
 ]
 
 
